@@ -845,6 +845,11 @@ func (r *envelopingReader) Read(data []byte) (n int, err error) {
 	}
 	if len(data) > offset {
 		n, err = r.current.Read(data[offset:])
+		if offset > 0 && errors.Is(err, io.EOF) {
+			// Only this message is exhausted (e.g. it is empty), not the stream: its
+			// envelope was just delivered, and the next Read finds out what follows.
+			err = nil
+		}
 	}
 	return offset + n, err
 }
